@@ -2,7 +2,7 @@
    node k-mer iterator (ni.), and their specification-level counterparts (s.d., s.sl., s.l., s.ni ...). *)
 From Coq Require Import NArith List Bool String.
 From DBG Require Import Interop.Val Spec.Dna Packed.KmerModel Packed.ExtsModel Packed.Blocks Packed.DnaStringModel
-  Packed.SliceModel Packed.LmerModel Algo.Iter Algo.NodeIter Algo.SeqHist.
+  Packed.SliceModel Packed.LmerModel Algo.Iter Algo.NodeIter Algo.SeqHist Packed.PackedSet.
 Import ListNotations.
 Open Scope N_scope.
 
@@ -135,6 +135,13 @@ Definition seq_ops : list (string * handler) :=
        input is carried for the replay) *)
     ("s.sl.owned_eq"%string, fun a => match a with [VL l; VL ops] => match vlistN l, omap v_sop ops with
         | Some _, Some _ => Some (ofbool true) | _, _ => None end | _ => None end);
+    (* PackedDnaStringSet built by add() of each sequence: the packed string, the start / length vectors, and every
+       entry read back through get(i) (coordinates) *)
+    ("ps.build"%string, fun a => match a with [VL seqs] => match omap vNs seqs with
+        | Some ls => Some (ofopt (fun p => VL [of_dstr (p_seq p); VL (map ofnat (p_start p)); VL (map ofnat (p_length p));
+                                               VL (map (fun i => ofopt of_slc (p_get p i)) (seq 0 (p_len p)))])
+                                 (p_add_all p_new ls))
+        | None => None end | _ => None end);
     ("s.sl.kmer"%string, fun a => match a with [VN k; VL l; VL ops; VN pos] => match vlistN l, omap v_sop ops with
         | Some d, Some o => Some (ofNs (kmer_at (N.to_nat k) (sview d o) (N.to_nat pos))) | _, _ => None end | _ => None end);
     ("s.sl.hamming"%string, fun a => match a with [VL l1; VL o1; VL l2; VL o2] => match vlistN l1, omap v_sop o1, vlistN l2, omap v_sop o2 with
